@@ -30,6 +30,12 @@ PROOF_FILES = ["theories/Props/C08.v", "theories/Checker/PenMpr.v", "theories/Ch
 EPS_DIR = Fr(1, 10 ** 9)
 
 
+def make_case_seeded(arg):
+    import random
+    seed, tier, k = arg
+    return make_case(random.Random(seed), tier, k)
+
+
 def make_case(rng, tier, k):
     u = rng.random()
     if u < 0.12:
@@ -155,8 +161,10 @@ def run(tier, seed, replay=None):
             for f in sorted(corpus.glob("*.json")):
                 cases.append(json.loads(f.read_text())["case"])
         n = 320 if tier == "quick" else 3000
-        for k in range(n):
-            cases.append(make_case(R.rng, tier, k))
+        seeds = [(R.rng.getrandbits(64), tier, k) for k in range(n)]
+        import multiprocessing as mp
+        with mp.get_context("fork").Pool(cm.NCPU) as pool:
+            cases += pool.map(make_case_seeded, seeds, chunksize=4)
     for c in cases:
         c.pop("result", None)
     results = [rr[0] for rr in npn.run_cases(PID, cases)]
